@@ -300,7 +300,9 @@ impl<'a> Sieve<'a> {
             idxskip,
             fbase,
             lo: offs,
-            lo_prev: vec![0u16; len],
+            // Entries of single-root primes are never written by sieve_block:
+            // they must read as "no root" in both buffers.
+            lo_prev: vec![OFFSET_NONE; len],
             blk: [0u8; BLOCK_SIZE],
             tables,
             ltables,
